@@ -763,6 +763,14 @@ pub fn random_op(r: &mut Rng) -> Op {
         } else {
             r.pick(pool).as_bytes().to_vec()
         };
+        // compound arguments: two draws (valid or not) joined by a separator. No single-subtag argument may contain a
+        // separator, so all of these must be refused as a whole - an implementation that splits its argument and
+        // applies the pieces one by one leaves a partial effect behind when a later piece is refused
+        if r.chance(1, 12) {
+            let second: &[u8] = if r.chance(1, 2) { r.pick(inval).as_bytes() } else { r.pick(pool).as_bytes() };
+            s.push(if r.chance(1, 4) { b'_' } else { b'-' });
+            s.extend_from_slice(second);
+        }
         match r.below(6) {
             0 => s.make_ascii_uppercase(),
             1 => {
